@@ -18,6 +18,7 @@ import (
 	"fmt"
 	"github.com/echovault/sugardb/internal"
 	"github.com/echovault/sugardb/internal/clock"
+	"github.com/echovault/sugardb/verifhook"
 	"github.com/tidwall/resp"
 	"io"
 	"log"
@@ -148,6 +149,7 @@ func (store *Store) Write(database int, command []byte) error {
 	// log the SELECT command before logging the incoming command.
 	// This allows us to switch databases appropriately when restoring the state on startup.
 	if database != store.currentDatabase {
+		verifhook.Point("aof.write.select")
 		index := strconv.Itoa(database)
 		_, err := store.rw.Write([]byte(fmt.Sprintf("*2\r\n$6\r\nSELECT\r\n$%d\r\n%s\r\n", len(index), index)))
 		if err != nil {
@@ -156,21 +158,25 @@ func (store *Store) Write(database int, command []byte) error {
 		store.currentDatabase = database
 	}
 
+	verifhook.Point("aof.write.cmd")
 	if _, err := store.rw.Write(command); err != nil {
 		return fmt.Errorf("log command error: %+v", err)
 	}
+	verifhook.Point("aof.write.written")
 
 	if strings.EqualFold(store.strategy, "always") {
 		if err := store.Sync(); err != nil {
 			return fmt.Errorf("log file sync error: %+v", err)
 		}
 	}
+	verifhook.Point("aof.write.done")
 
 	return nil
 }
 
 func (store *Store) Sync() error {
 	if store.rw != nil {
+		defer verifhook.Point("aof.synced")
 		return store.rw.Sync()
 	}
 	return nil
@@ -228,9 +234,11 @@ func (store *Store) Truncate() error {
 	store.mut.Lock()
 	defer store.mut.Unlock()
 
+	verifhook.Point("aof.trunc.begin")
 	if err := store.rw.Truncate(0); err != nil {
 		return fmt.Errorf("truncate: truncate error: %+v", err)
 	}
+	verifhook.Point("aof.trunc.truncated")
 
 	// Seek to the beginning of the file after truncating.
 	if _, err := store.rw.Seek(0, 0); err != nil {
